@@ -243,3 +243,58 @@ func VF_C08_K3()       { history(32, 3, true) }
 func VF_C08_Small_K3() { history(6, 3, true) }
 func VF_C08_Small_K4() { history(6, 4, true) }
 func VF_C08_K4()       { history(32, 4, true) }
+
+// two transactions open at the same time, interleaved at statement granularity, plus forced page flushes
+// (what an eviction does) between a transaction's writes and its commit
+func interleaved(k int) {
+	w := open(32)
+	var t [2]*access.Transaction
+	wrote := [2]bool{}
+	names := []string{"stmt", "commit", "abort"}
+	for i := 0; i < k; i++ {
+		act := vf.Choose(7)
+		if act == 6 {
+			vf.Note("act", "flush-dirty-pages")
+			w.bpm.FlushAllDirtyPages()
+			continue
+		}
+		who, what := act/3, act%3
+		vf.Note("act", []string{"A", "B"}[who]+":"+names[what])
+		if t[who] == nil {
+			if what != 0 {
+				vf.Assume(false)
+			}
+			t[who] = w.tm.Begin(nil)
+		}
+		switch what {
+		case 0:
+			w.exec(sysx.Insert("t1", []string{"tag", "v", "s"}, []types.Value{types.NewInteger(w.next), types.NewInteger(vf.I32()), types.NewVarchar("small")}), t[who])
+			w.next++
+			wrote[who] = true
+			vf.Assert(t[who].GetState() != access.ABORTED, "inserts of different rows do not conflict")
+		case 1:
+			id := t[who].GetTransactionID()
+			w.tm.Commit(w.cat, t[who])
+			if wrote[who] {
+				vf.Assert(w.mon.commits[id], "when Commit returns, the transaction's COMMIT record has been handed to the log file")
+			}
+			vf.Cover("c08.commit")
+			t[who], wrote[who] = nil, false
+		case 2:
+			w.tm.Abort(w.cat, t[who])
+			vf.Cover("c08.abort")
+			t[who], wrote[who] = nil, false
+		}
+		w.refreshPages()
+	}
+	for _, e := range w.mon.events {
+		if w.mon.userPages[e.id] {
+			vf.Assert(e.lsn <= e.seen, "a user-table page reaches the database file only after the log records up to its LSN (checked in retrospect)")
+		}
+	}
+	vf.Cover("c08.interleaved")
+}
+
+func VF_C08_Interleaved_K4() { interleaved(4) }
+func VF_C08_Interleaved_K5() { interleaved(5) }
+func VF_C08_Interleaved_K6() { interleaved(6) }
